@@ -369,3 +369,10 @@ package clusters
 //@   modifies e.status.Healthy, e.status.Reason, e.status.Message, e.status.UnhealthyCount
 //@   ensures [healthy_is_probe_result] e.status.Healthy == healthy
 //@   ensures [count] (healthy ==> e.status.UnhealthyCount == 0) && (!healthy ==> e.status.UnhealthyCount == old(e.status.UnhealthyCount) + 1)
+
+// Registering a cluster under its own name is AddWithKey with that name (C10).
+//@ func (*manager).Add props C10
+//@   requires [cluster] cluster != nil
+//@   modifies smap(&m.clusters)
+//@   ensures [stored_under_own_name] smhas(MC, box(toLower(cluster.Cluster))) && smget(MC, box(toLower(cluster.Cluster))) == box(cluster)
+//@   ensures [frame] forall k string :: {smhas(MC, box(k))} k != toLower(cluster.Cluster) ==> smhas(MC, box(k)) == old(smhas(MC, box(k))) && smget(MC, box(k)) == old(smget(MC, box(k)))
